@@ -584,6 +584,23 @@ func (env *Env) evalCall(x *ast.CallExpr) Val {
 			a, b := env.eval(x.Args[0]), env.eval(x.Args[1])
 			return boolVal(fc.sameBytes(env.st, a, b))
 		}
+		// named predicate
+		if p := fc.eng.preds[env.pkg.Name()+"."+id.Name]; p != nil {
+			if len(p.Params) != len(x.Args) {
+				userErr("pred %s: wrong number of arguments", id.Name)
+			}
+			sub := &Env{fc: fc, pkg: env.pkg, vars: map[string]Val{}, st: env.st, old: env.old, bound: env.bound, inOld: env.inOld}
+			for i, a := range x.Args {
+				v := env.eval(a)
+				pe, err := parseExprSrc(p.Params[i][1])
+				if err != nil {
+					userErr("pred %s: %v", id.Name, err)
+				}
+				v = env.typed(v, env.resolveType(pe))
+				sub.vars[p.Params[i][0]] = v
+			}
+			return boolVal(sub.evalBool(p.Body))
+		}
 		// conversion?
 		if t, ok := env.tryResolveType(x.Fun); ok && len(x.Args) == 1 {
 			return env.convert(env.eval(x.Args[0]), t)
